@@ -117,6 +117,7 @@ Proof. exact timeout_no_retry. Qed.
 Print Assumptions C05_timeout_no_retry.
 
 Theorem C05_timeout_handler_starts : forall (c : cfg) s h t0, pc s = LHandlers (h :: t0) false -> dry c = false ->
+  hsfail c h = false ->
   exists s', step c s (HStart h) = Some s'.
 Proof. exact handler_starts_after_timeout. Qed.
 Print Assumptions C05_timeout_handler_starts.
